@@ -156,6 +156,8 @@ pub struct ScOpts {
     pub small_root: bool,
     pub bpc_choices: Vec<u8>,
     pub stale_info: bool,
+    /// FAT32: the FSInfo next-free hint names a cluster that is in use (and the count is arbitrary)
+    pub hint_in_use: bool,
     /// turn the formatter's filler file into bad-cluster marks (same free space, no huge chain to walk)
     pub bad_fill: bool,
     /// add a sub-directory FULLDIR whose entries fill exactly 1..3 clusters (the next create must grow it)
@@ -164,7 +166,7 @@ pub struct ScOpts {
 
 impl Default for ScOpts {
     fn default() -> Self {
-        ScOpts { fat32: None, keep_free: None, dirty: false, multi_volume: false, big_tree: true, limits: None, small_root: false, bpc_choices: vec![1, 1, 2, 4, 8], stale_info: false, bad_fill: true, full_dir: false }
+        ScOpts { fat32: None, keep_free: None, dirty: false, multi_volume: false, big_tree: true, limits: None, small_root: false, bpc_choices: vec![1, 1, 2, 4, 8], stale_info: false, hint_in_use: false, bad_fill: true, full_dir: false }
     }
 }
 
@@ -325,7 +327,7 @@ pub fn make_scenario(rng: &mut Rng, o: &ScOpts) -> Scenario {
             lba_start: next_lba,
             tail_blocks: rng.below(bpc as u64) as u32,
             root_cluster: if fat32 { *rng.pick(&[2u32, 2, 5, 9]) } else { 0 },
-            info: if !fat32 { InfoInit::Unknown } else if o.stale_info { match rng.below(7) { 0 => InfoInit::Unknown, 1 => InfoInit::Stale { free: 0, next: 0xFFFF_FFF0 }, 2 => InfoInit::Stale { free: rng.next() as u32, next: rng.below(70000) as u32 },
+            info: if !fat32 { InfoInit::Unknown } else if o.hint_in_use { InfoInit::Stale { free: rng.below(70000) as u32, next: 2 + rng.below(8) as u32 } } else if o.stale_info { match rng.below(7) { 0 => InfoInit::Unknown, 1 => InfoInit::Stale { free: 0, next: 0xFFFF_FFF0 }, 2 => InfoInit::Stale { free: rng.next() as u32, next: rng.below(70000) as u32 },
                 // a hint naming a cluster that is IN USE (the formatter allocates from cluster 2 upwards: root, first files)
                 3 | 4 => InfoInit::Stale { free: rng.below(70000) as u32, next: 2 + rng.below(8) as u32 },
                 // a hint at cluster 0x10000 (free on these volumes): the next allocation gets a cluster number whose low 16 bits are 0
